@@ -73,8 +73,12 @@ func (ur *usageTracker) NewReport(serviceName, version, hostname string, now tim
 	if err != nil {
 		return nil, err
 	}
-	// clear the current data points and keep the last data points until we know the report was sent
-	ur.lastDataPoints = ur.currentDataPoints
+	// clear the current data points and keep everything reported so far until we
+	// know a report was sent; data points of an earlier report that was never
+	// confirmed must not be replaced by this interval's
+	for signal, usage := range ur.currentDataPoints {
+		ur.lastDataPoints[signal] += usage
+	}
 	ur.currentDataPoints = make(map[usageSignal]float64)
 	return data, nil
 }
